@@ -276,6 +276,16 @@ func init() {
 		skeleton("pkg/aggregation/sorting/sorter.go", "Reverse", "reverseSkel")
 		skeleton(helpFile, "BuildSorter", "buildSorterSkel")
 		skeleton("pkg/aggregation/accumulator.go", "AccumulatingGroup.Groups", "groupsSkel")
+		skeleton("pkg/aggregation/counter.go", "MatchCounter.ItemsSortedBy", "itemsSortedBySkel")
+		skeleton("pkg/aggregation/counter.go", "minSlice", "minSliceSkel")
+		skeleton("pkg/aggregation/sorting/sorter.go", "wrappedSorter.Less", "wrappedLessSkel")
+		skeleton("pkg/aggregation/sorting/sorter.go", "wrappedSorter.Swap", "wrappedSwapSkel")
+		skeleton("pkg/aggregation/sorting/sorter.go", "wrappedSorter.Len", "wrappedLenSkel")
+		skeleton("pkg/aggregation/sorting/sorter.go", "Sort", "sortSkel")
+		skeleton("pkg/aggregation/sorting/sorter.go", "SortBy", "sortBySkel")
+		skeleton("pkg/aggregation/counter.go", "MatchCounter.Items", "itemsSkel")
+		skeleton("pkg/aggregation/table.go", "TableAggregator.OrderedColumns", "orderedColumnsSkel")
+		skeleton("pkg/aggregation/table.go", "TableAggregator.OrderedRows", "orderedRowsSkel")
 
 		// round 4b: WHERE the stateful closures are created.  (a) no package-level variable of the sorting packages or the
 		// commands may hold a closure made by ByContextual / ByContextualEx / ByDate / ByDateWithContextual (it would be shared
@@ -397,6 +407,9 @@ func init() {
 			{"pkg/aggregation/sorting/sorter.go", "Reverse"}, {"pkg/aggregation/sorting/sorter.go", "SortBy"},
 			{helpFile, "parseSort"}, {helpFile, "lookupSorter"}, {helpFile, "BuildSorter"},
 			{"pkg/aggregation/accumulator.go", "AccumulatingGroup.Groups"},
+			{"pkg/aggregation/counter.go", "MatchCounter.ItemsSortedBy"}, {"pkg/aggregation/counter.go", "minSlice"},
+			{"pkg/aggregation/sorting/sorter.go", "wrappedSorter.Less"}, {"pkg/aggregation/sorting/sorter.go", "Sort"},
+			{"pkg/aggregation/table.go", "TableAggregator.OrderedColumns"}, {"pkg/aggregation/table.go", "TableAggregator.OrderedRows"},
 		} {
 			c.Fingerprint(fn[0], fn[1])
 		}
